@@ -314,8 +314,8 @@ def _adopt_moved(P, c, ledger, key, info, adopted):
     return None
 
 
-def run(P, rep, g, scope, rule="R-PANIC"):
-    """scope: 'parse' | 'render' | 'both'"""
+def run(P, rep, g, scope, rule="R-PANIC", only=None):
+    """scope: 'parse' | 'render' | 'both'; only: optional predicate on the site's function (a property's own files)"""
     import r_strslice
     c = census(P)
     ledger = load_ledger()
@@ -327,6 +327,8 @@ def run(P, rep, g, scope, rule="R-PANIC"):
         if scope == "parse" and not info["in_parse"]:
             continue
         if scope == "render" and not info["in_render"]:
+            continue
+        if only is not None and not only(info["fn"]):
             continue
         n += 1
         fn = info["fn"]
